@@ -48,7 +48,10 @@ impl DD {
         DD { hi, lo }
     }
     pub fn neg(self) -> DD {
-        DD { hi: -self.hi, lo: -self.lo }
+        DD {
+            hi: -self.hi,
+            lo: -self.lo,
+        }
     }
     pub fn sub(self, o: DD) -> DD {
         self.add(o.neg())
@@ -113,7 +116,12 @@ pub enum Expect<T> {
     ScalarNumeric(T),
     /// Float reduction: `|result - exact| <= bound`; if `exactly` is set the result must be
     /// numerically equal to it.
-    ScalarTol { exact: DD, bound: f64, exactly: Option<T>, why: String },
+    ScalarTol {
+        exact: DD,
+        bound: f64,
+        exactly: Option<T>,
+        why: String,
+    },
     /// Element-wise; comparison policy follows from the op.
     Vector(Vec<T>),
     /// The call must panic.
@@ -145,24 +153,24 @@ fn int_reduce<T: Elem>(op: Op, a: &[T], b: &[T]) -> T {
             for x in a {
                 acc = acc.wrapping_add(x.to_i128());
             }
-        },
+        }
         Op::SquaredNorm => {
             for x in a {
                 let v = x.to_i128();
                 acc = acc.wrapping_add(v.wrapping_mul(v));
             }
-        },
+        }
         Op::Dot => {
             for (x, y) in a.iter().zip(b) {
                 acc = acc.wrapping_add(x.to_i128().wrapping_mul(y.to_i128()));
             }
-        },
+        }
         Op::SquaredEuclidean => {
             for (x, y) in a.iter().zip(b) {
                 let d = x.to_i128() - y.to_i128();
                 acc = acc.wrapping_add(d.wrapping_mul(d));
             }
-        },
+        }
         _ => unreachable!(),
     }
     T::from_i128(acc)
@@ -183,7 +191,7 @@ fn float_reduce_ref<T: Elem>(op: Op, a: &[T], b: &[T]) -> (DD, f64, usize) {
                 // the subtraction is rounded once in the element type; that is the datum
                 let d = a[i].w_sub(b[i]).to_f64();
                 DD::prod(d, d)
-            },
+            }
             _ => unreachable!(),
         };
         if t.hi != 0.0 {
@@ -209,7 +217,11 @@ fn float_reduce_expect<T: Elem>(op: Op, a: &[T], b: &[T]) -> Expect<T> {
     let bound = gamma(n + 3, u) * sum_abs;
     // slack for the reference's own (double-double) error and for the f64 comparison
     let bound = bound * (1.0 + 1e-9) + sum_abs * 2f64.powi(-95);
-    let limit = if T::BITS == 32 { 16777216.0 } else { 9007199254740992.0 };
+    let limit = if T::BITS == 32 {
+        16777216.0
+    } else {
+        9007199254740992.0
+    };
     let uses_b = matches!(op, Op::Dot | Op::SquaredEuclidean);
     let mut exactly = None;
     let mut why = format!("gamma(n+3)*sum|terms| with n={n}");
@@ -221,7 +233,12 @@ fn float_reduce_expect<T: Elem>(op: Op, a: &[T], b: &[T]) -> Expect<T> {
         exactly = Some(T::from_f64(exact.to_f64_rounded_to::<T>()));
         why = "at most one non-zero term: the result is that term rounded once".into();
     }
-    Expect::ScalarTol { exact, bound, exactly, why }
+    Expect::ScalarTol {
+        exact,
+        bound,
+        exactly,
+        why,
+    }
 }
 
 impl DD {
@@ -295,7 +312,12 @@ fn cosine_float_expect<T: Elem>(a: &[T], b: &[T]) -> Expect<T> {
     let denom = na.mul(nb).sqrt();
     let exact = DD::from(1.0).sub(dot.div(denom));
     let bound = 4.0 * (n as f64 + 8.0) * u * (1.0 + 1e-9);
-    Expect::ScalarTol { exact, bound, exactly: None, why: format!("4(n+8)u with n={n}") }
+    Expect::ScalarTol {
+        exact,
+        bound,
+        exactly: None,
+        why: format!("4(n+8)u with n={n}"),
+    }
 }
 
 /// What a call with agreeing lengths must produce.
@@ -309,7 +331,7 @@ pub fn expected<T: Elem>(c: &VecCall<T>) -> Expect<T> {
             } else {
                 Expect::Scalar(int_reduce(op, a, b))
             }
-        },
+        }
         Op::Cosine => {
             if T::FLOAT {
                 cosine_float_expect(a, b)
@@ -319,7 +341,7 @@ pub fn expected<T: Elem>(c: &VecCall<T>) -> Expect<T> {
                     None => Expect::Panic,
                 }
             }
-        },
+        }
         Op::MaxHorizontal | Op::MinHorizontal => {
             let is_max = op == Op::MaxHorizontal;
             let mut acc = if is_max { T::lowest() } else { T::highest() };
@@ -331,15 +353,15 @@ pub fn expected<T: Elem>(c: &VecCall<T>) -> Expect<T> {
             } else {
                 Expect::Scalar(acc)
             }
-        },
+        }
         Op::MaxVertical | Op::MinVertical => {
             let is_max = op == Op::MaxVertical;
             Expect::Vector(a.iter().zip(b).map(|(&x, &y)| extreme(is_max, x, y)).collect())
-        },
+        }
         Op::MaxValue | Op::MinValue => {
             let is_max = op == Op::MaxValue;
             Expect::Vector(a.iter().map(|&x| extreme(is_max, x, c.value)).collect())
-        },
+        }
         Op::AddVector | Op::SubVector | Op::MulVector | Op::DivVector => {
             let mut out = Vec::with_capacity(a.len());
             for (&x, &y) in a.iter().zip(b) {
@@ -355,7 +377,7 @@ pub fn expected<T: Elem>(c: &VecCall<T>) -> Expect<T> {
                 }
             }
             Expect::Vector(out)
-        },
+        }
         Op::AddValue | Op::SubValue | Op::MulValue | Op::DivValue => {
             let v = c.value;
             if op == Op::DivValue && !T::FLOAT && v == T::zero() {
@@ -376,12 +398,18 @@ pub fn expected<T: Elem>(c: &VecCall<T>) -> Expect<T> {
                     })
                     .collect(),
             )
-        },
+        }
     }
 }
 
 fn fail(kind: &'static str, class: &'static str, expected: String, actual: String, note: String) -> Verdict {
-    Some(Fail { kind, class, expected, actual, note })
+    Some(Fail {
+        kind,
+        class,
+        expected,
+        actual,
+        note,
+    })
 }
 
 /// Element comparison policy for map kernels.
@@ -408,8 +436,14 @@ pub fn show_out<T: Elem>(o: &Out<T>) -> String {
     match o {
         Out::Scalar(v) => format!("{} ({})", v.show(), hexs(*v)),
         Out::Vector(v) if v.len() <= 8 => {
-            format!("[{}]", v.iter().map(|x| format!("{} ({})", x.show(), hexs(*x))).collect::<Vec<_>>().join(", "))
-        },
+            format!(
+                "[{}]",
+                v.iter()
+                    .map(|x| format!("{} ({})", x.show(), hexs(*x)))
+                    .collect::<Vec<_>>()
+                    .join(", ")
+            )
+        }
         Out::Vector(v) => format!("vector of {} elements", v.len()),
         Out::Panic(m) => format!("panic: {m}"),
     }
@@ -424,7 +458,7 @@ pub fn judge<T: Elem>(c: &VecCall<T>, out: &Out<T>, exp: &Expect<T>) -> Verdict 
         (Expect::Panic, o) => fail(
             "missing_panic",
             "missing_panic",
-            "the call panics (a processed integer divisor is zero)".into(),
+            "the call panics (integer division by zero)".into(),
             format!("returned normally: {}", show_out(o)),
             "division by zero must be reported by a panic".into(),
         ),
@@ -448,7 +482,7 @@ pub fn judge<T: Elem>(c: &VecCall<T>, out: &Out<T>, exp: &Expect<T>) -> Verdict 
                     "exact value required".into(),
                 )
             }
-        },
+        }
         (Expect::ScalarNumeric(w), Out::Scalar(g)) => {
             if !g.is_nan() && w == g {
                 None
@@ -461,8 +495,16 @@ pub fn judge<T: Elem>(c: &VecCall<T>, out: &Out<T>, exp: &Expect<T>) -> Verdict 
                     "numerically equal extreme required (either zero accepted)".into(),
                 )
             }
-        },
-        (Expect::ScalarTol { exact, bound, exactly, why }, Out::Scalar(g)) => {
+        }
+        (
+            Expect::ScalarTol {
+                exact,
+                bound,
+                exactly,
+                why,
+            },
+            Out::Scalar(g),
+        ) => {
             let gf = g.to_f64();
             if let Some(e) = exactly {
                 if !g.is_nan() && *e == *g {
@@ -488,7 +530,7 @@ pub fn judge<T: Elem>(c: &VecCall<T>, out: &Out<T>, exp: &Expect<T>) -> Verdict 
                     format!("error bound {why}"),
                 )
             }
-        },
+        }
         (Expect::Vector(w), Out::Vector(g)) => {
             if w.len() != g.len() {
                 return fail(
@@ -509,6 +551,11 @@ pub fn judge<T: Elem>(c: &VecCall<T>, out: &Out<T>, exp: &Expect<T>) -> Verdict 
                         format!("result[{i}] = {} ({})", g[i].show(), hexs(g[i])),
                         if untouched {
                             "element still holds the pre-fill pattern (not written)".into()
+                        } else if T::FLOAT && c.r.op.is_div() && cfg!(feature = "nightly") {
+                            "nightly build: float division may deviate by at most 2 ulp (FastMath \
+                             fdiv_algebraic lets the compiler multiply by a hoisted reciprocal of the \
+                             divisor, which overflows/underflows for extreme divisors)"
+                                .into()
                         } else {
                             String::new()
                         },
@@ -516,7 +563,7 @@ pub fn judge<T: Elem>(c: &VecCall<T>, out: &Out<T>, exp: &Expect<T>) -> Verdict 
                 }
             }
             None
-        },
+        }
         (e, o) => fail(
             "impl_vs_oracle",
             "shape",
@@ -538,7 +585,11 @@ pub struct CheckOpts {
 }
 
 impl CheckOpts {
-    pub const FULL: CheckOpts = CheckOpts { values: true, skip_float_reductions: false, panics_ok: false };
+    pub const FULL: CheckOpts = CheckOpts {
+        values: true,
+        skip_float_reductions: false,
+        panics_ok: false,
+    };
 }
 
 /// Executes the call and checks memory safety plus (optionally) the value against the oracle.
@@ -575,12 +626,17 @@ pub fn check_call<T: Elem>(c: &VecCall<T>, ar: &mut Arenas, o: CheckOpts) -> Ver
             ),
         };
     }
-    if o.panics_ok && matches!(ex.out, Out::Panic(_)) {
+    if o.panics_ok && (!o.values || matches!(ex.out, Out::Panic(_))) {
+        // only bounds and termination matter to the caller
         return None;
     }
     let exp = if !o.values {
         no_value_expect(c)
-    } else if o.skip_float_reductions && T::FLOAT && matches!(c.r.kind(), Kind::Reduce1 | Kind::Reduce2) && !c.r.op.is_minmax() {
+    } else if o.skip_float_reductions
+        && T::FLOAT
+        && matches!(c.r.kind(), Kind::Reduce1 | Kind::Reduce2)
+        && !c.r.op.is_minmax()
+    {
         Expect::Unchecked
     } else {
         expected(c)
